@@ -119,11 +119,14 @@ CLAIMED = {
         "Coq theorems on column bookkeeping + layout emulator monitor and per-value number-format validation"),
     "C12": entry(
         "CLEAR resets every field a run can depend on to its start-up value and changes nothing else; NEW additionally empties the listing, clears trace "
-        "mode and forces recompilation; RUN compiles to CLEAR followed by a jump (Props/C12.v).",
+        "mode and forces recompilation; RUN compiles to CLEAR followed by a jump; CLEAR makes two machines that agree on the static part identical, and "
+        "from the CLEAR that opens RUN's code on the fetch loop yields the same states and events on both, for any number of instructions "
+        "(C12_clear_forgets, C12_run_forgets; Props/C12.v).",
         "sessions with dirtying prefixes on model and crate; a relational monitor compares RUN after the prefix with RUN in a fresh interpreter.",
-        "RND reseeding uses OS entropy (an oracle in the model); compared programs do not call RND before seeding it. The whole-run equivalence with a "
-        "fresh interpreter is relational testing, not a bisimulation proof.",
-        "Coq proof (field-by-field reset) + history-based differential and relational check"),
+        "RND reseeding uses OS entropy (an oracle in the model); compared programs do not call RND before seeding it. The theorem is about machines whose static part "
+        "(listing, compiled code, cursor column, entropy position) agrees; that a session prefix leaves the static part of a fresh interpreter with the same listing "
+        "is C04's theorem plus the relational test.",
+        "Coq proof (field-by-field reset, non-interference of the whole run) + history-based differential and relational check"),
     "C13": entry(
         "any way of cutting a run of the instruction loop into budgets gives the same state and first event as one budget of the same total, for every "
         "program, state and cut; at the API, execute(n+m) = execute(n); execute(m) while the machine stays running; interrupt() saves exactly what CONT "
